@@ -532,7 +532,7 @@ def check_C11(chk):
 
 
 def check_C12(chk):
-    _text_check(chk, {"Esc", "Unesc", "Strip", "E2E", "Panic"},
+    _text_check(chk, {"Esc", "Unesc", "Strip", "Colour", "E2E", "Panic"},
                 "TLC enumerates all strings up to length 4 (quick) / 5 (thorough) over a 13-class alphabet (caret, digits incl. 8, escape letter, "
                 "reserved characters, code page letters, ASCII, Latin-1, Cyrillic, double-byte with 0x5E trail, in no code page) with Esc / Unesc / "
                 "Strip; the laws (Unesc o Esc = id, no raw reserved character, Strip idempotent) are checked on the model; the real escape / "
